@@ -1247,3 +1247,19 @@ package mcp
 //@   before call return#0 assert[C01,C05 answer-classes-need-an-id-and-a-result-or-error] isnil(ret1) && (ret == JSONRPCMessageTypeResponse || ret == JSONRPCMessageTypeError) ==> ("id" in message) && (("result" in message) || ("error" in message))
 //@   before call return#0 assert[C01,C05 a-request-has-an-id-and-neither-result-nor-error] isnil(ret1) && ret == JSONRPCMessageTypeRequest ==> ("id" in message) && !("result" in message) && !("error" in message)
 //@   before call return#0 assert[C01,C05 a-notification-has-a-method-and-no-id] isnil(ret1) && ret == JSONRPCMessageTypeNotification ==> !("id" in message) && ("method" in message)
+//@
+// C02 — a JSON answer is decoded from the whole response body, unbounded and unwrapped
+//@ func streamableHTTPClientTransport.send
+//@   before call ReadAll#1 assert[C02 the-whole-response-body-is-read] arg0 == asany(httpResp.Body)
+//@
+// C03 — list results carry an array (never null) for every list method
+//@ func resourceManager.handleListResources
+//@   ensures[C03 resources-list-result-has-an-array] ret1 == nil && istype(ret, ListResourcesResult) && ret.(ListResourcesResult).Resources != nil
+//@ func promptManager.handleListPrompts
+//@   ensures[C03 prompts-list-result-has-an-array] ret1 == nil && istype(ret, *ListPromptsResult) && ret.(*ListPromptsResult) != nil && ret.(*ListPromptsResult).Prompts != nil
+//@
+// C14 — every server kind advertises capabilities from the very managers that serve its requests
+//@ func NewStdioServer
+//@   ensures[C14 lifecycle-manager-wired-to-the-serving-managers] result != nil && result.lifecycleManager != nil && result.lifecycleManager.toolManager == result.toolManager && result.lifecycleManager.promptManager == result.promptManager && result.lifecycleManager.resourceManager == result.resourceManager && result.promptManager != nil && result.toolManager != nil && result.resourceManager != nil
+//@ func newMCPHandler
+//@   ensures[C14 lifecycle-manager-wired-to-the-serving-managers] result != nil && result.lifecycleManager != nil && result.lifecycleManager.toolManager == result.toolManager && result.lifecycleManager.promptManager == result.promptManager && result.lifecycleManager.resourceManager == result.resourceManager
